@@ -647,7 +647,7 @@ class XsdElement(XsdComponent, ParticleMixin,
             # Use location hints for dynamic schema load
             self.check_dynamic_context(obj, validation, context)
 
-        inherited = context.inherited
+        inherited = outer_inherited = context.inherited
         value = content = None
         nilled = False
 
@@ -706,7 +706,6 @@ class XsdElement(XsdComponent, ParticleMixin,
                 inherited.update((k, v) for k, v in obj.attrib.items() if k in self.inheritable)
             else:
                 inherited = {k: v for k, v in obj.attrib.items() if k in self.inheritable}
-            context = _copy(context)
             context.inherited = inherited
 
         # Checks the xsi:nil attribute of the instance
@@ -814,6 +813,7 @@ class XsdElement(XsdComponent, ParticleMixin,
                     value = str(value)
 
         context.id_list = id_list
+        context.inherited = outer_inherited
         xmlns = context.converter.set_xmlns_context(obj, context.level)  # Purge sub-contexts
 
         if isinstance(context, DecodeContext):
